@@ -300,6 +300,13 @@ class MPContext(BaseMPContext, StandardBaseContext):
         """
         a = ctx.__class__()
         a.prec = ctx.prec
+        # links to the sibling contexts (set for the global contexts in mpmath/__init__.py)
+        if hasattr(ctx, '_mp'):
+            a._mp = a
+        if hasattr(ctx, '_fp'):
+            a._fp = ctx._fp
+        if hasattr(ctx, '_iv'):
+            a._iv = ctx._iv
         return a
 
     # Several helper methods
